@@ -575,6 +575,18 @@ func (f *format) unParse() string {
 	return b.String()
 }
 
+// goFormat returns the original format without the container delimiter flags. Those flags are
+// only meaningful to pcore. The fmt package would treat them as (bad) verbs.
+func goFormat(f px.Format) string {
+	return strings.Map(func(c rune) rune {
+		switch c {
+		case '[', '{', '<', '(', '|':
+			return -1
+		}
+		return c
+	}, f.OrigFormat())
+}
+
 func hasDelimOnce(flags string, format string, delim byte) bool {
 	found := false
 	for _, b := range flags {
